@@ -519,7 +519,7 @@ def main():
                 if any("@unstable" in n for n in fp.get("changed", [])) and plan.spec is not None and pid != "C16":
                     xcfg.append("unstable")
                 wide = run_plan(plan, wide_tier, seed + 7919, os.path.join(wd, "wide"), extra_cfgs=xcfg,
-                                budget=(WIDE_BUDGET if steer else None), affected=affected)
+                                budget=((WIDE_BUDGET if tier == "quick" else 20 * WIDE_BUDGET) if steer else None), affected=affected)
                 for r in wide:
                     if r.get("ofail"):
                         found = (r, r["ofail"][0])
